@@ -111,6 +111,10 @@ func isDirectiveLine(line string) bool {
 	return false
 }
 
+func isIndentedLine(line string) bool {
+	return strings.HasPrefix(line, " ") || strings.HasPrefix(line, "\t")
+}
+
 func findCommentBlockFolds(content string) []protocol.FoldingRange {
 	lines := strings.Split(content, "\n")
 	var ranges []protocol.FoldingRange
@@ -126,10 +130,13 @@ func findCommentBlockFolds(content string) []protocol.FoldingRange {
 
 		startLine := i
 		endLine := i
+		// indented comment lines belong to the entry above them; a block of
+		// them does not continue into top-level comment lines (or vice versa)
+		indented := isIndentedLine(lines[i])
 
 		for j := i + 1; j < len(lines); j++ {
 			nextLine := strings.TrimSpace(lines[j])
-			if strings.HasPrefix(nextLine, ";") || strings.HasPrefix(nextLine, "#") {
+			if (strings.HasPrefix(nextLine, ";") || strings.HasPrefix(nextLine, "#")) && isIndentedLine(lines[j]) == indented {
 				endLine = j
 			} else {
 				break
